@@ -18,6 +18,7 @@ import time
 from six.moves.urllib.parse import urlparse
 
 from .frame import Frame
+from .opcode import Opcode
 from . import errors
 from . import events
 from . import proxy
@@ -75,21 +76,34 @@ class WebsocketSession(object):
         """Force the socket to disconnect."""
         raise _ForceDisconnect()
 
-    def write(self, data):
-        """Send raw data."""
+    def write(self, data, closing=False):
+        """Send raw data.
+
+        If `closing` is set (the data is a close frame), the websocket
+        enters the closing state before other threads get a chance to
+        write: nothing may follow a close frame.
+
+        """
         with self._lock:
             self._check_writable()
             self._sendall(data)
+            if closing:
+                self.websocket.state.closing = True
 
     def _check_writable(self):
         """Raise an error if data can not be sent (lock must be held)."""
         if self._sock is None:
             log.debug('WebSocket unavailable; data not sent')
             raise errors.WebSocketUnavailable('not connected')
+        # Another thread (the event loop) may take the websocket from
+        # closing to closed while we look. It sets `closed` before it
+        # clears `closing`, and we read `closing` before `closed`, so
+        # we can never see both flags off in between.
+        is_closing = self.websocket.is_closing
         if self.websocket.is_closed:
             log.debug('WebSocket closed; data not sent')
             raise errors.WebSocketClosed('data not sent')
-        if self.websocket.is_closing:
+        if is_closing:
             log.debug('WebSocket closing; data not sent')
             raise errors.WebSocketClosing('data not sent')
 
@@ -111,7 +125,7 @@ class WebsocketSession(object):
     def send(self, opcode, data):
         """Send a WS Frame."""
         frame = Frame(opcode, payload=bytearray(data))
-        self.write(frame.to_bytes())
+        self.write(frame.to_bytes(), closing=(opcode == Opcode.CLOSE))
         log.debug(' SRV <- CLI : %r', frame)
 
     def send_compressed(self, opcode, data, compress):
